@@ -215,12 +215,15 @@ static void op_other(hist_t *h, const char *op)
     int_t *pc = hx_malloc(sizeof(int_t) * (n + 1)), *pr = hx_malloc(sizeof(int_t) * (n + 1)); SuperMatrix L, U, B; void *bval; make_dense_B(vt, n, 1, n, &bval, &B, 0);
     int_t info = -777;
     sched_configure(P >= 2 ? SCHED_CONTROLLED : SCHED_NONE, P, (uint64_t)opt_int(op, "seed", 3), 0, 0, 100);
+    int sv6 = g_ienv[6], sv7 = g_ienv[7], sv8 = g_ienv[8];       /* storage estimates follow this system's own size */
+    g_ienv[6] = g_ienv[7] = n * n + 4 * n + 64; g_ienv[8] = 2 * n * n + 8 * n + 64;
     g_track = 1; get_perm_c((int)opt_int(op, "order", 0), &A, pc); g_track = 0;
     sched_begin_factor(P);
     g_phase = "other";
     LIB(vt->gssv(P, &A, pc, pr, &L, &U, &B, &info));
     sched_end_factor();
     if (info == 0 || (info > 0 && info <= n)) { g_track = 1; Destroy_SuperNode_SCP(&L); Destroy_CompCol_NCP(&U); g_track = 0; }
+    g_ienv[6] = sv6; g_ienv[7] = sv7; g_ienv[8] = sv8;
     feat_add("others", 1); (void)h;
     hx_free(ri); hx_free(cp); hx_free(val); hx_free(pc); hx_free(pr); hx_free(bval); hx_free(B.Store);
 }
